@@ -235,6 +235,7 @@ def oracle_after(chk, sb, pr, before, cmd, special_names=()):
 
 
 def model_after(pr, op, ents, dirs, files):
+    """the model's .gitignore contents {dir: text} after one update op on the workspace `ents`"""
     line = f'{op}\t{enc_tree(ents)}\t{hx("DATE")}\t{",".join(hx(d) for d in dirs)}\t{",".join(hx(f) for f in files)}'
     _, am, _ = pr.both([line])
     if am[0] is None:
@@ -244,6 +245,14 @@ def model_after(pr, op, ents, dirs, files):
         if item:
             d, c = item.split(':')
             out[unhx(d)[1:]] = unhx(c)
+    return out
+
+
+def with_contents(ents, contents):
+    """the workspace `ents` with the .gitignore contents replaced by `contents`"""
+    out = [e for e in ents if e[0] == 'D']
+    for d, c in sorted(contents.items()):
+        out += [('F', (d + '/' if d else '') + GI), ('I', d, c)]
     return out
 
 
@@ -320,7 +329,11 @@ def scenario(chk, pr, xvc, idx, rng, forced=None):
                 rc, out, err = sb.x('file', 'track', *targets)
                 dts = [t.rstrip('/') for t in targets if t.endswith('/')]
                 fts = sorted(f for f in on_disk if any(f == t or (t.endswith('/') and f.startswith(t)) for t in targets))
+                # cmd_track: update_dir/file_gitignores, then carry-in rechecks the newly committed files (ignore handler)
                 exp = model_after(pr, 'gtrack', ents, dts, fts)
+                new = sorted(set(fts) - tracked)
+                if exp is not None and new:
+                    exp = model_after(pr, 'ghandler', with_contents(ents, exp), [], new)
                 tracked |= set(fts)
                 desc = 'xvc file track ' + ' '.join(targets)
             elif c[0] == 'rm-recheck':
@@ -355,7 +368,10 @@ def scenario(chk, pr, xvc, idx, rng, forced=None):
                     if missing:
                         # recheck_from_cache created the parent: the model works on the tree that has it
                         ents = ents + [('D', p) for p in ([parent] + ([os.path.dirname(parent)] if '/' in parent else [])) if ('D', p) not in ents]
-                    exp = model_after(pr, 'ghandler', ents, [parent] if missing else [], [dst])
+                    if c[0] == 'move':      # copy -> copy: renamed in the workspace, then update_file_gitignores (C16-move.patch)
+                        exp = model_after(pr, 'gmove', ents, [], [dst])
+                    else:
+                        exp = model_after(pr, 'ghandler', ents, [parent] if missing else [], [dst])
                 desc = f'xvc file {c[0]} {src} {dst}'
             log.append({'cmd': desc, 'rc': rc})
             if rc not in (0,):
